@@ -315,6 +315,10 @@ func C08(p *core.Program, r *core.Report) {
 	}
 
 	checkPartFileLocking(p, r, mutex)
+	r.Analysed["error_returning_functions_checked"] = checkErrorsNotSwallowedTol(p, r, map[string]bool{
+		"pkg/storage.BundlePart.deleteBundle": true, // best-effort removal of a part file: logged, an orphaned file is harmless
+		"pkg/storage.Store.QueryId":           true, // "not found" is an answer (nothing to delete / insert instead of update)
+	}, storagePkg)
 
 	// ---- IT: expiry sweep
 	de := p.Func(storagePkg, "Store", "DeleteExpired")
